@@ -84,62 +84,83 @@ func ruleC20(prog *Program, rep *Report) {
 	// O-maporder
 	rep.Rules = append(rep.Rules, "O-maporder: in package asm a range over a map whose body appends to a slice declared outside the loop is followed, in the same function, by a sort of that slice (map order must not reach a result)")
 	mapLoops := 0
-	for _, f := range pk.Syntax {
-		for _, d := range f.Decls {
-			fd, ok := d.(*ast.FuncDecl)
-			if !ok || fd.Body == nil {
-				continue
-			}
-			ast.Inspect(fd.Body, func(n ast.Node) bool {
-				rs, ok := n.(*ast.RangeStmt)
-				if !ok {
-					return true
+	scanMapOrder := func(files []*ast.File, info *types.Info, good, bad func(key string, pos token.Pos, text string)) {
+		for _, f := range files {
+			for _, d := range f.Decls {
+				fd, ok := d.(*ast.FuncDecl)
+				if !ok || fd.Body == nil {
+					continue
 				}
-				if _, isMap := info.TypeOf(rs.X).Underlying().(*types.Map); !isMap {
-					return true
-				}
-				ast.Inspect(rs.Body, func(k ast.Node) bool {
-					as, ok := k.(*ast.AssignStmt)
-					if !ok || len(as.Lhs) != 1 || len(as.Rhs) != 1 {
-						return true
-					}
-					call, ok := as.Rhs[0].(*ast.CallExpr)
+				ast.Inspect(fd.Body, func(n ast.Node) bool {
+					rs, ok := n.(*ast.RangeStmt)
 					if !ok {
 						return true
 					}
-					if id, ok := call.Fun.(*ast.Ident); !ok || id.Name != "append" {
+					if _, isMap := info.TypeOf(rs.X).Underlying().(*types.Map); !isMap {
 						return true
 					}
-					tgt := useObj(info, as.Lhs[0])
-					if tgt == nil || (rs.Body.Pos() <= tgt.Pos() && tgt.Pos() <= rs.Body.End()) {
-						return true
-					}
-					mapLoops++
-					sorted := false
-					ast.Inspect(fd.Body, func(q ast.Node) bool {
-						c, ok := q.(*ast.CallExpr)
-						if !ok || c.Pos() < rs.End() {
+					ast.Inspect(rs.Body, func(k ast.Node) bool {
+						as, ok := k.(*ast.AssignStmt)
+						if !ok || len(as.Lhs) != 1 || len(as.Rhs) != 1 {
 							return true
 						}
-						if sel, ok := c.Fun.(*ast.SelectorExpr); ok {
-							if fn, ok := info.Uses[sel.Sel].(*types.Func); ok && fn.Pkg() != nil && fn.Pkg().Path() == "sort" && len(c.Args) > 0 && useObj(info, c.Args[0]) == tgt {
-								sorted = true
+						call, ok := as.Rhs[0].(*ast.CallExpr)
+						if !ok {
+							return true
+						}
+						if id, ok := call.Fun.(*ast.Ident); !ok || id.Name != "append" {
+							return true
+						}
+						tgt := useObj(info, as.Lhs[0])
+						if tgt == nil || (rs.Body.Pos() <= tgt.Pos() && tgt.Pos() <= rs.Body.End()) {
+							return true
+						}
+						mapLoops++
+						sorted := false
+						ast.Inspect(fd.Body, func(q ast.Node) bool {
+							c, ok := q.(*ast.CallExpr)
+							if !ok || c.Pos() < rs.End() {
+								return true
 							}
+							if sel, ok := c.Fun.(*ast.SelectorExpr); ok {
+								if fn, ok := info.Uses[sel.Sel].(*types.Func); ok && fn.Pkg() != nil && fn.Pkg().Path() == "sort" && len(c.Args) > 0 && useObj(info, c.Args[0]) == tgt {
+									sorted = true
+								}
+							}
+							return true
+						})
+						key := fmt.Sprintf("asm.%s:maprange:%s", funcKey(fd), tgt.Name())
+						if sorted {
+							good(key, rs.Pos(), "the collected slice is sorted after the loop")
+						} else {
+							bad(key, rs.Pos(), "a slice filled in map iteration order is used without sorting: the result differs from run to run")
 						}
 						return true
 					})
-					key := fmt.Sprintf("asm.%s:maprange:%s", funcKey(fd), tgt.Name())
-					if sorted {
-						rep.Discharge("O-maporder", key, prog.Pos(rs.Pos()), "the collected slice is sorted after the loop")
-					} else {
-						rep.Violate(Finding{Rule: "O-maporder", Key: key, Pos: prog.Pos(rs.Pos()), Msg: "a slice filled in map iteration order is used without sorting: the result differs from run to run"})
-					}
 					return true
 				})
-				return true
-			})
+			}
 		}
 	}
+	{
+		ff, finfo, _, err := loadFixture(fixtureMapOrder)
+		if err != nil {
+			rep.Errorf("O-maporder: fixture does not type-check: %v", err)
+		} else {
+			g, b := 0, 0
+			scanMapOrder(ff, finfo, func(string, token.Pos, string) { g++ }, func(string, token.Pos, string) { b++ })
+			if g != 1 || b != 1 {
+				rep.Errorf("O-maporder: the positive-control fixture produced %d accepted and %d reported loops (want 1 and 1)", g, b)
+			} else {
+				rep.Discharge("O-maporder", "positive-control", "checker/rules_c20.go", "fixture: unsorted collection reported, sorted one accepted")
+			}
+		}
+		mapLoops = 0
+	}
+	scanMapOrder(pk.Syntax, info, func(key string, pos token.Pos, how string) { rep.Discharge("O-maporder", key, prog.Pos(pos), how) },
+		func(key string, pos token.Pos, msg string) {
+			rep.Violate(Finding{Rule: "O-maporder", Key: key, Pos: prog.Pos(pos), Msg: msg})
+		})
 	// S-order: lt / lte / gt / gte are copies up to the comparison operators
 	rep.Rules = append(rep.Rules, "S-order: the bodies of the four ordering functions registered under lt, lte, gt, gte (found through the Name/Eval pairs of their Fn registrations) are identical after replacing relational operators and the function's own name by placeholders")
 	skel := map[string]string{}
@@ -287,80 +308,145 @@ func ruleC20(prog *Program, rep *Report) {
 	// I-scratch: evaluation scratch maps are per iteration
 	rep.Rules = append(rep.Rules, "I-scratch: in package asm a map created outside a loop is not both written (m[k] = ...) and passed to a call inside that loop: the per-element evaluation context must be created in the iteration, or values left by one element are visible to the next")
 	scr := 0
-	for _, f := range pk.Syntax {
-		for _, d := range f.Decls {
-			fd, ok := d.(*ast.FuncDecl)
-			if !ok || fd.Body == nil {
-				continue
-			}
-			ast.Inspect(fd.Body, func(n ast.Node) bool {
-				var body *ast.BlockStmt
-				switch l := n.(type) {
-				case *ast.RangeStmt:
-					body = l.Body
-				case *ast.ForStmt:
-					body = l.Body
-				default:
-					return true
+	scanScratch := func(files []*ast.File, info *types.Info, good, bad func(key string, pos token.Pos, text string)) {
+		for _, f := range files {
+			for _, d := range f.Decls {
+				fd, ok := d.(*ast.FuncDecl)
+				if !ok || fd.Body == nil {
+					continue
 				}
-				written := map[types.Object]bool{}
-				passed := map[types.Object]token.Pos{}
-				ast.Inspect(body, func(k ast.Node) bool {
-					switch x := k.(type) {
-					case *ast.AssignStmt:
-						for _, l := range x.Lhs {
-							if ix, ok := l.(*ast.IndexExpr); ok {
-								if o := useObj(info, ix.X); o != nil {
+				ast.Inspect(fd.Body, func(n ast.Node) bool {
+					var body *ast.BlockStmt
+					switch l := n.(type) {
+					case *ast.RangeStmt:
+						body = l.Body
+					case *ast.ForStmt:
+						body = l.Body
+					default:
+						return true
+					}
+					written := map[types.Object]bool{}
+					passed := map[types.Object]token.Pos{}
+					ast.Inspect(body, func(k ast.Node) bool {
+						switch x := k.(type) {
+						case *ast.AssignStmt:
+							for _, l := range x.Lhs {
+								if ix, ok := l.(*ast.IndexExpr); ok {
+									if o := useObj(info, ix.X); o != nil {
+										if _, isMap := o.Type().Underlying().(*types.Map); isMap {
+											written[o] = true
+										}
+									}
+								}
+							}
+						case *ast.CallExpr:
+							for _, a := range x.Args {
+								if o := useObj(info, a); o != nil {
 									if _, isMap := o.Type().Underlying().(*types.Map); isMap {
-										written[o] = true
+										passed[o] = x.Pos()
 									}
 								}
 							}
 						}
-					case *ast.CallExpr:
-						for _, a := range x.Args {
-							if o := useObj(info, a); o != nil {
-								if _, isMap := o.Type().Underlying().(*types.Map); isMap {
-									passed[o] = x.Pos()
+						return true
+					})
+					for o, p := range passed {
+						if !written[o] {
+							continue
+						}
+						if _, isVar := o.(*types.Var); !isVar {
+							continue
+						}
+						// parameters are the caller's root/at, not scratch
+						isParam := false
+						if fd.Type.Params != nil {
+							for _, fl := range fd.Type.Params.List {
+								for _, nm := range fl.Names {
+									if info.Defs[nm] == o {
+										isParam = true
+									}
 								}
 							}
+						}
+						if isParam {
+							continue
+						}
+						scr++
+						key := fmt.Sprintf("asm.%s:scratch:%s", funcKey(fd), o.Name())
+						if body.Pos() <= o.Pos() && o.Pos() <= body.End() {
+							good(key, p, "scratch map created inside the loop")
+						} else {
+							bad(key, p, fmt.Sprintf("the map %s is created once outside the loop, written in every iteration and handed to the evaluation: keys set while processing one element are still there for the next", o.Name()))
 						}
 					}
 					return true
 				})
-				for o, p := range passed {
-					if !written[o] {
-						continue
-					}
-					if _, isVar := o.(*types.Var); !isVar {
-						continue
-					}
-					// parameters are the caller's root/at, not scratch
-					isParam := false
-					if fd.Type.Params != nil {
-						for _, fl := range fd.Type.Params.List {
-							for _, nm := range fl.Names {
-								if info.Defs[nm] == o {
-									isParam = true
-								}
-							}
-						}
-					}
-					if isParam {
-						continue
-					}
-					scr++
-					key := fmt.Sprintf("asm.%s:scratch:%s", funcKey(fd), o.Name())
-					if body.Pos() <= o.Pos() && o.Pos() <= body.End() {
-						rep.Discharge("I-scratch", key, prog.Pos(p), "scratch map created inside the loop")
-					} else {
-						rep.Violate(Finding{Rule: "I-scratch", Key: key, Pos: prog.Pos(p), Msg: fmt.Sprintf("the map %s is created once outside the loop, written in every iteration and handed to the evaluation: keys set while processing one element are still there for the next", o.Name())})
-					}
-				}
-				return true
-			})
+			}
 		}
 	}
+	{
+		ff, finfo, _, err := loadFixture(fixtureScratch)
+		if err != nil {
+			rep.Errorf("I-scratch: fixture does not type-check: %v", err)
+		} else {
+			g, b := 0, 0
+			scanScratch(ff, finfo, func(string, token.Pos, string) { g++ }, func(string, token.Pos, string) { b++ })
+			if g != 1 || b != 1 {
+				rep.Errorf("I-scratch: the positive-control fixture produced %d accepted and %d reported maps (want 1 and 1)", g, b)
+			} else {
+				rep.Discharge("I-scratch", "positive-control", "checker/rules_c20.go", "fixture: hoisted scratch map reported, per-iteration one accepted")
+			}
+		}
+		scr = 0
+	}
+	scanScratch(pk.Syntax, info, func(key string, pos token.Pos, how string) { rep.Discharge("I-scratch", key, prog.Pos(pos), how) },
+		func(key string, pos token.Pos, msg string) {
+			rep.Violate(Finding{Rule: "I-scratch", Key: key, Pos: prog.Pos(pos), Msg: msg})
+		})
 	_ = scr
 	_ = mapLoops
 }
+
+const fixtureMapOrder = `package fixture
+
+import "sort"
+
+func keysUnsorted(m map[string]any) (keys []string) {
+	for k := range m {
+		keys = append(keys, k)
+	}
+	return
+}
+
+func keysSorted(m map[string]any) []string {
+	var keys []string
+	for k := range m {
+		keys = append(keys, k)
+	}
+	sort.Strings(keys)
+	return keys
+}
+`
+
+const fixtureScratch = `package fixture
+
+func eval(local map[string]any, v any) any { return v }
+
+func hoisted(list []any) (out []any) {
+	local := map[string]any{}
+	for i, v := range list {
+		local["i"] = i
+		out = append(out, eval(local, v))
+	}
+	return
+}
+
+func perIteration(list []any) (out []any) {
+	for i, v := range list {
+		local := map[string]any{}
+		local["i"] = i
+		out = append(out, eval(local, v))
+	}
+	return
+}
+`
